@@ -74,17 +74,17 @@ pub fn examples(th: bool) -> Vec<Example> {
     // ---------------------------------------------------------------- knapsack
     {
         let scopes: Vec<(usize, u64)> = if th { vec![(1, 3), (2, 3), (3, 3), (4, 2)] } else { vec![(1, 3), (2, 3), (3, 2)] };
-        let sizes: Vec<u64> = scopes.iter().map(|(n, a)| 7 * (a * a).pow(*n as u32)).collect();
+        let sizes: Vec<u64> = scopes.iter().map(|(n, a)| 7 * ((a + 1) * a).pow(*n as u32)).collect();
         let count = sizes.iter().sum();
         let sc = scopes.clone();
-        ex.push(Example { name: "knapsack", scope: format!("(items, alphabet of weights/profits 1..a) in {:?}, capacity 0..=6, all combinations", scopes), count, file_flag: None, tsptw_output: false, extra: vec![],
+        ex.push(Example { name: "knapsack", scope: format!("(items, a) in {:?}: weights 1..a, profits 0..a (worthless items included), capacity 0..=6, all combinations", scopes), count, file_flag: None, tsptw_output: false, extra: vec![],
             arg_sets: argsets(&w4, &[None], "-w", "-t"),
             gen: Box::new(move |mut idx| {
                 let mut k = 0;
                 while idx >= sizes[k] { idx -= sizes[k]; k += 1; }
                 let (n, a) = sc[k];
                 let cap = digit(&mut idx, 7) as usize;
-                let items: Vec<(usize, usize)> = (0..n).map(|_| { let p = digit(&mut idx, a) as usize + 1; let w = digit(&mut idx, a) as usize + 1; (p, w) }).collect();
+                let items: Vec<(usize, usize)> = (0..n).map(|_| { let p = digit(&mut idx, a + 1) as usize; let w = digit(&mut idx, a) as usize + 1; (p, w) }).collect();
                 let mut best = 0;
                 for m in 0..(1u32 << n) { let w: usize = (0..n).filter(|i| m & (1 << i) != 0).map(|i| items[i].1).sum(); if w <= cap { let p: usize = (0..n).filter(|i| m & (1 << i) != 0).map(|i| items[i].0).sum(); best = best.max(p); } }
                 let text = format!("{} {}\n{}", n, cap, items.iter().map(|(p, w)| format!("{} {}\n", p, w)).collect::<String>());
@@ -119,10 +119,12 @@ pub fn examples(th: bool) -> Vec<Example> {
     }
     // ---------------------------------------------------------------- max2sat
     {
-        // clause universe for n variables: unit clauses (2n) and binary clauses on two distinct variables (4 per pair)
+        // clause universe for n variables: unit clauses (2n), tautologies (x or not x: n; the reader accepts them and the
+        // model accounts for them separately) and binary clauses on two distinct variables (4 per pair)
         let universe = |n: usize| -> Vec<Vec<i32>> {
             let mut u = vec![];
             for x in 1..=n as i32 { u.push(vec![x]); u.push(vec![-x]); }
+            for x in 1..=n as i32 { u.push(vec![-x, x]); }
             for x in 1..=n as i32 { for y in x + 1..=n as i32 { for (sx, sy) in [(1, 1), (1, -1), (-1, 1), (-1, -1)] { u.push(vec![sx * x, sy * y]); } } }
             u
         };
@@ -130,7 +132,7 @@ pub fn examples(th: bool) -> Vec<Example> {
         let mut blocks: Vec<(usize, usize, u64)> = vec![]; // (n, k clauses, size)
         for (n, kmax) in scopes.iter() { let u = universe(*n).len() as u64; for k in 1..=*kmax { if k as u64 <= u { blocks.push((*n, k, binom(u, k as u64) * (1u64 << k))); } } }
         let count = blocks.iter().map(|b| b.2).sum();
-        ex.push(Example { name: "max2sat", scope: format!("(variables, max clauses) in {:?}: all sets of distinct non tautological unit/binary clauses, weights in {{1,2}}", scopes), count, file_flag: Some("--file"), tsptw_output: false, extra: vec![],
+        ex.push(Example { name: "max2sat", scope: format!("(variables, max clauses) in {:?}: all sets of distinct unit/binary clauses (tautologies x or not x included), weights in {{1,2}}", scopes), count, file_flag: Some("--file"), tsptw_output: false, extra: vec![],
             arg_sets: argsets(&w4, &[None], "-w", "-t"),
             gen: Box::new(move |mut idx| {
                 let mut b = 0;
